@@ -187,6 +187,48 @@ fn main() {
             println!("wrong={}", wrong);
             println!("first_wrong={}", first);
         }
+        // compaction_bounds_with_snapshot : put a, k; flush to a deep level; snapshot; overwrite k; flush and compact: the output table
+        // holds a@1, k@3, k@2 (the snapshot keeps k@2 alive) and must report k@2 as its largest key; the snapshot reads the old value
+        "compaction_bounds_with_snapshot" => {
+            use raindb::{ReadOptions, WriteOptions};
+            let mut o = raindb::DbOptions::with_memory_env();
+            o.db_path = "db".to_string();
+            o.create_if_missing = true;
+            let db = raindb::DB::open(o).expect("open");
+            db.put(WriteOptions::default(), b"a".to_vec(), b"va".to_vec()).unwrap();
+            db.put(WriteOptions::default(), b"k".to_vec(), b"old".to_vec()).unwrap();
+            db.compact_range(None..None);
+            let snap = db.get_snapshot();
+            db.put(WriteOptions::default(), b"k".to_vec(), b"new".to_vec()).unwrap();
+            db.compact_range(None..None);
+            let layout: String = db.get_descriptor(raindb::db::DatabaseDescriptor::SSTables).map(|d| format!("{:?}", d)).unwrap_or_default().chars().filter(|c| !c.is_whitespace()).collect();
+            let got = db.get(ReadOptions { snapshot: Some(snap.clone()), ..ReadOptions::default() }, b"k").map(|v| String::from_utf8_lossy(&v).to_string()).unwrap_or_else(|e| format!("{:?}", e));
+            println!("snapshot_read={}", got);
+            // every table that ends with user key k must end with the oldest stored version k@2
+            println!("bounds_cover_entries={}", !layout.contains("..k@3:Put]"));
+            println!("layout={}", layout.replace("\\n", "|").chars().take(300).collect::<String>());
+        }
+        // single_key_file_reopen : a table that holds three versions of one user key; the layout the database reports must be the
+        // same before the close and after the reopen
+        "single_key_file_reopen" => {
+            use raindb::WriteOptions;
+            let mut o = raindb::DbOptions::with_memory_env();
+            o.db_path = "db".to_string();
+            o.create_if_missing = true;
+            let layout = |db: &raindb::DB| -> String { db.get_descriptor(raindb::db::DatabaseDescriptor::SSTables).map(|d| format!("{:?}", d)).unwrap_or_default().chars().filter(|c| !c.is_whitespace()).collect::<String>().replace("\\n", "|") };
+            let before;
+            {
+                let db = raindb::DB::open(o.clone()).expect("open");
+                for val in ["v1", "v2", "v3"] {
+                    db.put(WriteOptions::default(), b"k".to_vec(), val.as_bytes().to_vec()).unwrap();
+                }
+                db.compact_range(None..None);
+                before = layout(&db);
+            }
+            let db = raindb::DB::open(o.clone()).expect("reopen");
+            println!("before={}", before);
+            println!("after={}", layout(&db));
+        }
         // trivial_move n0 n1 : level 1 holds n0 (1..2) adjacent files which are the chosen inputs, level 2 holds n1 files that
         // overlap them; after the real input finalisation the manifest is asked whether this is a trivial move
         "trivial_move" => {
